@@ -217,6 +217,8 @@ class Explorer:
     def fresh(self, sort, hint="v"):
         self.counter += 1
         name = "%s!%d" % (hint, self.counter)
+        if isinstance(sort, z3.SortRef):
+            return z3.Const(name, sort)
         if sort == "int":
             return z3.Int(name)
         if sort == "real":
@@ -322,8 +324,11 @@ class LoopSpec:
     Emits the obligations <name>.init and <name>.preserve; after the loop the invariant at n is assumed.
     """
 
-    def __init__(self, name, inv, length, item, modifies):
+    def __init__(self, name, inv, length, item, modifies, hyp_inv=None):
         self.name, self.inv, self.length, self.item, self.modifies = name, inv, length, item, modifies
+        # when the invariant is universally quantified (FORALL h. P(h)): `inv` is P at the goal's skolem constant and
+        # `hyp_inv` the conjunction of the instances the proof needs (FORALL-elimination); defaults to inv
+        self.hyp_inv = hyp_inv or inv
 
     def run(self, I, s, f, emit_init=True):
         it = I.eval(s.iter, f)
@@ -335,7 +340,7 @@ class LoopSpec:
         if I.ex.choose(2) == 0:
             k = I.ex.fresh("int", "iter")
             I.ex.assume(z3.And(k >= 0, k < n))
-            I.ex.assume(self.inv(I, f, k))
+            I.ex.assume(self.hyp_inv(I, f, k))
             I.assign(s.target, self.item(I, f, it, k), f)
             try:
                 I.exec_block(s.body, f)
@@ -346,7 +351,7 @@ class LoopSpec:
             I.ex.oblige(self.name + ".preserve", self.inv(I, f, k + 1))
             raise PathAbort()
         I.ex.assume(n >= 0)
-        I.ex.assume(self.inv(I, f, n))
+        I.ex.assume(self.hyp_inv(I, f, n))
         if s.orelse:
             I.exec_block(s.orelse, f)
 
